@@ -77,8 +77,8 @@ decreasing_by
 
 /-- `parser.get_name()` at `cur` with the parser end at `endp`; returns name and new position;
 on failure the class and the parser position left behind -/
-def pGetName (w : Bytes) (endp cur : Nat) : Except (String × Nat) (Name × Nat) :=
-  match fromWireAuxF w endp cur cur cur [] with
+def pGetName (w : Bytes) (endp cur : Nat) (fur : Nat := cur) : Except (String × Nat) (Name × Nat) :=
+  match fromWireAuxF w endp cur cur fur [] with
   | .error (e, f) => .error (nameErrClass e, f)
   | .ok (n, f) => match validate n with
     | .error e => .error (nameErrClass e, f)
@@ -134,6 +134,7 @@ def pBody (w : Bytes) (kind : BodyKind) (cur rdlen : Nat) : Except (String × Na
 
 structure RState where
   cur : Nat
+  fur : Nat                    -- the parser's `furthest` (differs from `cur` only after a `seek`)
   errs : List (String × Nat)   -- continue_on_error records: (class, parser.current)
   counts : List Nat            -- records accepted per section (question, answer, authority, additional)
   deriving Repr
@@ -150,22 +151,22 @@ def bump (counts : List Nat) (sec : Nat) : List Nat :=
 def readQuestions (w : Bytes) : (n : Nat) → RState → ROut
   | 0, s => .ok s
   | n + 1, s =>
-    match pGetName w w.length s.cur with
-    | .error (e, f) => .raised e { s with cur := f }
+    match pGetName w w.length s.cur s.fur with
+    | .error (e, f) => .raised e { s with cur := f, fur := f }
     | .ok (_, c) =>
       match pGetBytes w w.length c 4 with
-      | .error (e, f) => .raised e { s with cur := f }
-      | .ok (_, c2) => readQuestions w n { s with cur := c2, counts := bump s.counts 0 }
+      | .error (e, f) => .raised e { s with cur := f, fur := f }
+      | .ok (_, c2) => readQuestions w n { s with cur := c2, fur := c2, counts := bump s.counts 0 }
 
 /-- `_get_section`, one record per iteration.  `cont` = continue_on_error. -/
 def readSection (w : Bytes) (cont : Bool) (sec : Nat) : (n : Nat) → RState → ROut
   | 0, s => .ok s
   | n + 1, s =>
-    match pGetName w w.length s.cur with
-    | .error (e, f) => .raised e { s with cur := f }
+    match pGetName w w.length s.cur s.fur with
+    | .error (e, f) => .raised e { s with cur := f, fur := f }
     | .ok (_, c) =>
       match pGetBytes w w.length c 10 with
-      | .error (e, f) => .raised e { s with cur := f }
+      | .error (e, f) => .raised e { s with cur := f, fur := f }
       | .ok (hdr, c2) =>
         let rdtype := be (hdr.take 2)
         let rdclass := be ((hdr.drop 2).take 2)
@@ -179,15 +180,15 @@ def readSection (w : Bytes) (cont : Bool) (sec : Nat) : (n : Nat) → RState →
             let bodyR : Except (String × Nat) Unit :=
               if rdlen > w.length - c2 then .error ("FormError", c2) else pBody w kind c2 rdlen
             match bodyR with
-            | .ok () => readSection w cont sec n { s with cur := c2 + rdlen, counts := bump s.counts sec }
+            | .ok () => readSection w cont sec n { s with cur := c2 + rdlen, fur := c2 + rdlen, counts := bump s.counts sec }
             | .error (e, f) =>
               if cont then
-                -- `_add_error(e)` records parser.current (= f), then `seek(rdata_start + rdlen)`;
-                -- a seek beyond the end raises FormError out of the handler
+                -- `_add_error(e)` records parser.current (= f), then `seek(rdata_start + rdlen)` which
+                -- moves `current` but not `furthest`; a seek beyond the end raises FormError out of the handler
                 if c2 + rdlen > w.length then
-                  .raised "FormError" { s with cur := f, errs := s.errs ++ [(e, f)] }
-                else readSection w cont sec n { s with cur := c2 + rdlen, errs := s.errs ++ [(e, f)] }
-              else .raised e { s with cur := f }
+                  .raised "FormError" { s with cur := f, fur := f, errs := s.errs ++ [(e, f)] }
+                else readSection w cont sec n { s with cur := c2 + rdlen, fur := f, errs := s.errs ++ [(e, f)] }
+              else .raised e { s with cur := f, fur := f }
 
 structure ReadOpts where
   cont : Bool
@@ -211,7 +212,7 @@ def readMsg (w : Bytes) (o : ReadOpts) : ReadResult :=
       let an := be ((w.drop 6).take 2)
       let au := be ((w.drop 8).take 2)
       let ad := be ((w.drop 10).take 2)
-      let s0 : RState := { cur := 12, errs := [], counts := [0, 0, 0, 0] }
+      let s0 : RState := { cur := 12, fur := 12, errs := [], counts := [0, 0, 0, 0] }
       let finish (r : ROut) : ReadResult :=
         match r with
         | .unsupported => .unsupported
